@@ -49,6 +49,7 @@ type Op struct {
 	Tag          string // unique content tag for publishes
 	Note         string // free-form label for oracles
 	Raw          []byte // exact bytes to put on the wire (JSON transports only)
+	Mut, MutArg  int    // mutation applied to the marshalled JSON (JSON transports only)
 }
 
 func (o *Op) String() string {
@@ -136,24 +137,32 @@ func cloneMsg(m *ClientComMessage) *ClientComMessage {
 }
 
 func setMsgID(m *ClientComMessage, id string) {
-	switch {
-	case m.Hi != nil:
+	// a message carrying several parts gets the same id on each (the server decides which part it honours)
+	if m.Hi != nil {
 		m.Hi.Id = id
-	case m.Acc != nil:
+	}
+	if m.Acc != nil {
 		m.Acc.Id = id
-	case m.Login != nil:
+	}
+	if m.Login != nil {
 		m.Login.Id = id
-	case m.Sub != nil:
+	}
+	if m.Sub != nil {
 		m.Sub.Id = id
-	case m.Leave != nil:
+	}
+	if m.Leave != nil {
 		m.Leave.Id = id
-	case m.Pub != nil:
+	}
+	if m.Pub != nil {
 		m.Pub.Id = id
-	case m.Get != nil:
+	}
+	if m.Get != nil {
 		m.Get.Id = id
-	case m.Set != nil:
+	}
+	if m.Set != nil {
 		m.Set.Id = id
-	case m.Del != nil:
+	}
+	if m.Del != nil {
 		m.Del.Id = id
 	}
 }
